@@ -69,4 +69,4 @@ from harness.nsrun import ns_fault_obligations, nsfaulted  # noqa: E402
 OBLIGATIONS += ns_fault_obligations('c03', 'C03', ['up-stream', 'down-stream'])
 
 from harness.coupload import OB_PROTO, protocol_fixed  # noqa: E402
-OBLIGATIONS += [dict(OB_PROTO, id='C03.proto', tier='thorough')]
+OBLIGATIONS += [dict(OB_PROTO, id='C03.proto', tier='thorough', cases_thorough=OB_PROTO['cases'], splits_thorough=OB_PROTO['splits'])]
